@@ -63,6 +63,12 @@ EP = {
 for k, (text, ref) in EP.items():
     CLAIMED[k] = dict(text=text, note=TRUST + " Endpoints are driven over real loopback UDP sockets; socket errors are not modelled (the code ignores them).", technique="Coq proof (invariants / per-handler theorems on the Client and Server models) + model/implementation differential run over real sockets + property oracle", design=ref)
 
+CLAIMED["C19"] = dict(
+   text="Coq theorem on the allocator-call ledger of the reassembly buffer (the only place where the library managed a block by hand): for every fragment count and total size the ledger of the current code is balanced (each block released exactly once with the layout it has), and the pre-repair code was unbalanced for every size that is not a multiple of the fragment size. The pairing of allocations in safe Rust / std is the compiler's guarantee and is OBSERVED only: the harness runs the streams under a checking global allocator (layout recorded at alloc and compared at dealloc; live bytes compared after every teardown) and the check fails when the inventory of `unsafe` items changes: PARTIAL.",
+   note=TRUST + " Safe Rust's allocation pairing and std are trusted.",
+   technique="Coq proof (allocator ledger of FragmentBuffer) + checking global allocator in the harness + unsafe inventory (partial)",
+   design="DESIGN.md §5 C19")
+
 NOT_YET = "not yet covered by the Coq development in this revision (model/theorem under construction); see DESIGN.md"
 
 checks = []
